@@ -44,11 +44,13 @@ fn check(rep: &Report, acc: &mut Acc, it: &Item, rank: u64) {
         let mut input = it.bytes.clone();
         input.extend_from_slice(&t);
         // receiver: a context is primed for continuation packets so that decap associates an id
-        let mut rxs = RxS::new(2, 64, &[64, 64]);
+        // storage large enough for whatever the packet carries
+        let st = (p.payload.len() + 16).max(64);
+        let mut rxs = RxS::new(2, st, &[st, st]);
         rxs.last = it.rx_last;
         if let Some(f) = p.frag_id {
             if p.kind == Kind::Inter || p.kind == Kind::End {
-                rxs.mem.set_ctx(CtxS { label: L3A, pt: 0x0800, frag_id: f, total_len: 40, pdu_len: 2, from_reuse: false, exts: vec![] }, vec![0u8; 64]);
+                rxs.mem.set_ctx(CtxS { label: L3A, pt: 0x0800, frag_id: f, total_len: (p.payload.len() + 40).min(65535) as u16, pdu_len: 2, from_reuse: false, exts: vec![] }, vec![0u8; st]);
             }
         }
         let mut d = rxs.build(DefaultCrc {}, mgr.clone());
@@ -139,13 +141,15 @@ fn check(rep: &Report, acc: &mut Acc, it: &Item, rank: u64) {
 
 pub fn run(tier: Tier) -> i32 {
     let rep = Report::new("C19", tier);
-    rep.set_rule("corpus = every packet the real encapsulator produces in the small regimes: encap over PDU lengths 0..=12 x buffers 0..=32 x labels {6B, 3B, the all-zero 3B label, broadcast, explicit re-use} x prior {fresh, same label (substitution)} x fragment ids (all 256 for PDU length <= 2, else 3), encap_frag over every position and buffer for PDU lengths 0..=12 x all 256 ids (for small cells), encap_ext over all chains of length <= 2 (thorough 3) x labels x buffers; each packet alone and followed by 6 tails; peek and decap run on the same receiver (context primed for continuation packets); distinct = (kind, label type, peek result)");
+    rep.set_rule("corpus = every packet the real encapsulator produces in the small regimes: encap over PDU lengths 0..=12 x buffers 0..=32 (thorough 0..=96 x 0..=128) and PDU lengths around the 4095 limit x buffers 4090..=70000 (with their continuation packets) x labels {6B, 3B, the all-zero 3B label, broadcast, explicit re-use} x prior {fresh, same label (substitution)} x fragment ids (all 256 for PDU length <= 2, else 3), encap_frag over every position and buffer for PDU lengths 0..=12 (thorough 0..=48) x all 256 ids (for small cells), encap_ext over all chains of length <= 2 (thorough 3) x labels x buffers; each packet alone and followed by 6 tails; peek and decap run on the same receiver (context primed for continuation packets); distinct = (kind, label type, peek result)");
     // first calls
-    let cells: Vec<(usize, Lbl, Prior)> = (0..=12usize).flat_map(|p| [L6A, L3A, L3Z, Lbl::Bcast, Lbl::ReUse].into_iter().flat_map(move |l| [Prior::Fresh, Prior::Same].into_iter().map(move |pr| (p, l, pr)))).filter(|&(_, l, pr)| pr == Prior::Fresh || l.is_addr()).collect();
+    let maxp = if tier.thorough() { 96usize } else { 12 };
+    let maxb = if tier.thorough() { 128usize } else { 32 };
+    let cells: Vec<(usize, Lbl, Prior)> = (0..=maxp).flat_map(|p| [L6A, L3A, L3Z, Lbl::Bcast, Lbl::ReUse].into_iter().flat_map(move |l| [Prior::Fresh, Prior::Same].into_iter().map(move |pr| (p, l, pr)))).filter(|&(_, l, pr)| pr == Prior::Fresh || l.is_addr()).collect();
     cells.par_iter().for_each(|&(p, l, prior)| {
         let mut acc = Acc::default();
         let pd = pdu(p, 0);
-        for b in 0..=32usize {
+        for b in 0..=maxb {
             let fids: Vec<u8> = if p <= 2 { (0..=255).collect() } else { vec![0, 0xA7, 255] };
             for fid in fids {
                 let mut enc = build_prior(DefaultCrc {}, prior, l);
@@ -159,7 +163,42 @@ pub fn run(tier: Tier) -> i32 {
         }
         rep.merge(acc);
     });
-    rep.part(json!({"part":"encap packets","pdu_lengths":"0..=12","buffers":"0..=32"}));
+    rep.part(json!({"part":"encap packets","pdu_lengths":format!("0..={}", maxp),"buffers":format!("0..={}", maxb)}));
+    // packets at the 12-bit GSE length limit and beyond a BBFrame-sized buffer
+    let big: Vec<(usize, Lbl, Prior)> = [4080usize, 4084, 4085, 4087, 4088, 4090, 4091, 4093, 4094, 4096, 9000].into_iter().flat_map(|p| [(p, L6A, Prior::Fresh), (p, L3A, Prior::Fresh), (p, Lbl::Bcast, Prior::Fresh), (p, L6A, Prior::Same), (p, Lbl::ReUse, Prior::Fresh)]).collect();
+    big.par_iter().for_each(|&(p, l, prior)| {
+        let mut acc = Acc::default();
+        let pd = pdu(p, 1);
+        for b in [4090usize, 4094, 4095, 4096, 4097, 4098, 4100, 5000, 70000] {
+            let mut enc = build_prior(DefaultCrc {}, prior, l);
+            let mut buf = vec![0u8; b];
+            let out = do_encap(&mut enc, &pd, 0xA7, 0x0800, l, &mut buf);
+            if let EncOut::Fragmented(n, ctx) = out {
+                // the continuation packets of this PDU as well
+                let mut c = ctx;
+                for b2 in [4097usize, 70000, 4090] {
+                    let mut buf2 = vec![0u8; b2];
+                    let o2 = do_encap_frag(&enc, &pd, c, &mut buf2);
+                    if let Some(n2) = o2.len() {
+                        let it = Item { bytes: buf2[..n2.min(b2)].to_vec(), desc: format!("encap_frag(pdu_len={}, pos={}, frag_id={}, buffer={}) -> {:?}", p, c.pos, c.id, b2, o2), passed: None, rx_last: None };
+                        check(&rep, &mut acc, &it, (p * 100) as u64);
+                    }
+                    if let EncOut::Fragmented(_, c2) = o2 {
+                        c = c2;
+                    } else {
+                        break;
+                    }
+                }
+                let _ = n;
+            }
+            if let Some(n) = out.len() {
+                let it = Item { bytes: buf[..n.min(b)].to_vec(), desc: format!("encap(pdu_len={}, label={}, prior={:?}, frag_id=167, buffer={}) -> {:?}", p, l.short(), prior, b, out), passed: Some(l), rx_last: if prior == Prior::Same { Some(l) } else if l == Lbl::ReUse { Some(L6B) } else { None } };
+                check(&rep, &mut acc, &it, (p * 100) as u64);
+            }
+        }
+        rep.merge(acc);
+    });
+    rep.part(json!({"part":"packets at the GSE length limit","pdu_lengths":[4080, 4084, 4085, 4087, 4088, 4090, 4091, 4093, 4094, 4096, 9000],"buffers":[4090, 4094, 4095, 4096, 4097, 4098, 4100, 5000, 70000]}));
     // special label values (next to the reserved zero label, all ones, ...)
     special_labels().par_iter().for_each(|&l| {
         let mut acc = Acc::default();
@@ -181,7 +220,7 @@ pub fn run(tier: Tier) -> i32 {
     });
     rep.part(json!({"part":"special label values","labels":special_labels().iter().map(|l| l.short()).collect::<Vec<_>>()}));
     // continuation calls
-    (0..=12usize).collect::<Vec<_>>().par_iter().for_each(|&p| {
+    (0..=(if tier.thorough() { 48usize } else { 12 })).collect::<Vec<_>>().par_iter().for_each(|&p| {
         let mut acc = Acc::default();
         let pd = pdu(p, 0);
         let enc = dvb_gse_rust::gse_encap::Encapsulator::new(DefaultCrc {});
